@@ -183,3 +183,16 @@ claim('C38', 'other',
       'static analysis (narrow): construction of the key serializer from the partition-key columns in key order, placement of key values by index, and '
       'the attach guard (is None, not truthiness). Equality with Cassandra\'s encoding for all values is C01/C02',
       'syntax-directed dataflow inside the metaclass body + guard shape', _TB, 'DESIGN.md section 5 C38')
+
+claim('C39', 'other',
+      'static analysis: nullness rule (a may-be-None cell reaches decrypt only under a not-null guard) in the pure-Python decoder and, through the Cython '
+      'parser, in obj_parser.pyx; bind/decode sibling agreement on column descriptor, codec source and cipher/codec order; AES policy IV/padding symmetry',
+      'nullness dataflow + sibling cross-check across .py and .pyx parse trees', _TB + '; Cython.Compiler parser from the repository environment', 'DESIGN.md section 5 C39')
+claim('C40', 'other',
+      'static analysis (narrow): serializer registry (incl. specialisations) closed under the same version\'s deserializer table, unique tags, three-valued '
+      'guard on "@value", serialize/deserialize pairing. Value round trips are not decided', 'registry extraction and closure + three-valued guard domain', _TB, 'DESIGN.md section 5 C40')
+claim('C41', 'proof',
+      'get_lower_supported folded over the whole finite version domain; protocol_downgrade enumerated row by row; closed writer set of protocol_version; every '
+      'exit of the connect loop body classified (break / raise / downgrade) so the loop decreases a value of a finite set or leaves; unsupported-version '
+      'conversion facts', 'finite-domain constant folding + exhaustive path enumeration + loop-exit classification',
+      'trusted: CPython ast, sa/fold.py, sa/cfg.py; assumes protocol_downgrade is reached only from _try_connect', 'DESIGN.md section 5 C41')
